@@ -33,7 +33,7 @@ ASSUMPTIONS = [
 @st.composite
 def diff_case(draw):
     ptrs = ("uint8", "uint16", "uint32", "uint64")
-    case = draw(gens.input_case(gens.opts(long_strings=True, null_structs=True, multidim_dyn=True, bits_char=True, bits_odd=True, wide_bits=True), cfg_kw={"compiled": True, "ptrs": ptrs}))
+    case = draw(gens.input_case(gens.opts(long_strings=True, null_structs=True, multidim_dyn=True, bits_char=True, bits_odd=True, wide_bits=True), cfg_kw={"compiled": True, "ptrs": ptrs, "grow": True}))
     case["raw"] = draw(st.binary(max_size=40)).hex()
     return case
 
